@@ -11,6 +11,7 @@
 (*   main                  the statement's own query starts                *)
 (*   tbl(join, schema, name) / cteref(join, name)   a FROM item            *)
 (*   sub(join) ... end     a derived table                                 *)
+(*   paren(join) ... end   a parenthesised join  ( t1 JOIN t2 ON .. )      *)
 (*   where ... end         a subquery in WHERE                             *)
 (*   isub ... end          a scalar subquery in the select list            *)
 (*   having ... end        a subquery in HAVING                            *)
@@ -67,7 +68,8 @@ NRel(f) == SumLen(f.groups, Len(f.groups))
 AddRel(f, join, c, cd) ==
    IF join \in {"first", "comma"} THEN [f EXCEPT !.groups = Append(@, << <<c, cd>> >>)]
    ELSE [f EXCEPT !.groups[Len(f.groups)] = Append(@, <<c, cd>>)]
-Joins == IF Top.groups = <<>> THEN {"first"} ELSE {"inner", "comma"}
+InParen == stack # <<>> /\ Top.role \in {"paren:first", "paren:comma", "paren:inner"}
+Joins == IF Top.groups = <<>> THEN {"first"} ELSE IF InParen THEN {"inner"} ELSE {"inner", "comma"}
 Contribution(f) == UNION {UNION {f.groups[i][j][1] : j \in DOMAIN f.groups[i]} : i \in DOMAIN f.groups}
 Mixed(f) == Len(f.groups) > 1 /\ \E i \in DOMAIN f.groups : Len(f.groups[i]) > 1
 ContributionDev(f) ==
@@ -107,21 +109,24 @@ FromName == /\ phase = "body" /\ Room /\ NRel(Top) < MaxRel
 Push(ev, role, f) == /\ phase = "body" /\ Room /\ Len(stack) <= MaxDepth /\ prog' = Append(prog, ev)
                      /\ stack' = Append(SetTop(f), Frame(role)) /\ UNCHANGED <<ds, ctes, phase, out, outDev, fired>>
 FromSub == /\ phase = "body" /\ NRel(Top) < MaxRel /\ \E j \in Joins : Push(Ev("sub", j, None, None), "derived:" \o j, Top)
-WhereSub == /\ phase = "body" /\ NRel(Top) >= 1 /\ ~Top.wh /\ ~Top.hv /\ "where" \in Clauses
+\* a parenthesised join is a FROM item made of FROM items: it opens a frame that takes relations only
+FromParen == /\ phase = "body" /\ NRel(Top) < MaxRel /\ "paren" \in Clauses
+             /\ \E j \in Joins : Push(Ev("paren", j, None, None), "paren:" \o j, Top)
+WhereSub == /\ phase = "body" /\ NRel(Top) >= 1 /\ ~Top.wh /\ ~Top.hv /\ "where" \in Clauses /\ ~InParen
             /\ Push(Ev("where", None, None, None), "where", [Top EXCEPT !.wh = TRUE])
 \* an UPDATE ... FROM has no select list, HAVING or set operation of its own
 TopOfUpdate == StmtKind = "update" /\ Len(stack) = 1
-ItemSub == /\ phase = "body" /\ NRel(Top) >= 1 /\ ~Top.it /\ ~Top.wh /\ ~Top.hv /\ "isub" \in Clauses /\ ~TopOfUpdate
+ItemSub == /\ phase = "body" /\ NRel(Top) >= 1 /\ ~Top.it /\ ~Top.wh /\ ~Top.hv /\ "isub" \in Clauses /\ ~TopOfUpdate /\ ~InParen
            /\ Push(Ev("isub", None, None, None), "scalar", [Top EXCEPT !.it = TRUE])
-HavingSub == /\ phase = "body" /\ NRel(Top) >= 1 /\ ~Top.hv /\ "having" \in Clauses /\ ~TopOfUpdate
+HavingSub == /\ phase = "body" /\ NRel(Top) >= 1 /\ ~Top.hv /\ "having" \in Clauses /\ ~TopOfUpdate /\ ~InParen
              /\ Push(Ev("having", None, None, None), "having", [Top EXCEPT !.hv = TRUE])
 Union == /\ phase = "body" /\ Room /\ NRel(Top) >= 1 /\ Top.br < 2 /\ "union" \in Clauses
-         /\ Top.role \notin {"where", "scalar", "having"} /\ ~TopOfUpdate
+         /\ Top.role \notin {"where", "scalar", "having"} /\ ~TopOfUpdate /\ ~InParen
          /\ prog' = Append(prog, Ev("union", None, None, None))
          /\ stack' = SetTop([CloseBranch(Top) EXCEPT !.br = @ + 1])
          /\ fired' = IF Mixed(Top) /\ Contribution(Top) # ContributionDev(Top) THEN fired \cup {"D_COMMA_JOIN_DROPS_JOINED"} ELSE fired
          /\ UNCHANGED <<ds, ctes, phase, out, outDev>>
-End == /\ phase = "body" /\ NRel(Top) >= 1 /\ prog' = Append(prog, Ev("end", None, None, None)) /\ UNCHANGED ds
+End == /\ phase = "body" /\ NRel(Top) >= (IF InParen THEN 2 ELSE 1) /\ prog' = Append(prog, Ev("end", None, None, None)) /\ UNCHANGED ds
        /\ LET f == CloseBranch(Top)
               mixed == Mixed(Top) /\ Contribution(Top) # ContributionDev(Top) IN
           IF Len(stack) = 1
@@ -138,9 +143,10 @@ End == /\ phase = "body" /\ NRel(Top) >= 1 /\ prog' = Append(prog, Ev("end", Non
                /\ stack' = [Pop EXCEPT ![Len(stack) - 1] =
                     IF f.role \in {"where", "scalar", "having"}
                     THEN [p EXCEPT !.extra = @ \cup f.acc, !.extraDev = @ \cup (IF blindS \/ blindH THEN {} ELSE f.accDev)]
-                    ELSE AddRel(p, IF f.role = "derived:first" THEN "first" ELSE IF f.role = "derived:comma" THEN "comma" ELSE "inner",
+                    ELSE AddRel(p, IF f.role \in {"derived:first", "paren:first"} THEN "first"
+                                   ELSE IF f.role \in {"derived:comma", "paren:comma"} THEN "comma" ELSE "inner",
                                 f.acc, f.accDev)]
-Next == Start \/ CteOpen \/ Main \/ FromName \/ FromSub \/ WhereSub \/ ItemSub \/ HavingSub \/ Union \/ End
+Next == Start \/ CteOpen \/ Main \/ FromName \/ FromSub \/ FromParen \/ WhereSub \/ ItemSub \/ HavingSub \/ Union \/ End
 Spec == Init /\ [][Next]_vars
 
 \* ---------------------------------------------------------------- the property, read off the program alone
